@@ -196,6 +196,8 @@ def rewrite_x86_asm(src, want):
         body = src[p + 1:q]
         end = src.index(';', q) + 1
         parts = body.split(':')
+        if len(parts) == 3:
+            parts.append('')	# no clobber list: a fact for C20.O4 to judge, not a shape error
         if len(parts) != 4:
             raise ValueError('asm statement with %d sections' % len(parts))
         tmpl = ''.join(re.findall(r'"([^"]*)"', parts[0])).strip()
